@@ -50,13 +50,16 @@ class ValueWalkerItem(Contract):
             w = v.ghost["what"]
             return None if w == "keep" else v.ghost["out"][0] if w == "one" else list(v.ghost["out"])
         fld = I.fresh("field", "str")
-        item = SObj(idx.lookup("sigma.rule.detection:SigmaDetectionItem"), {"field": fld, "value": vals}, lazy=True)
+        item = SObj(idx.lookup("sigma.rule.detection:SigmaDetectionItem"), {"field": fld, "value": list(vals)}, lazy=True)
         me = SObj(idx.lookup(f"{TB}:ValueTransformation"), {"value_types": ClassRef(S), "apply_value": NativeFn("apply_value", av)}, lazy=True)
-        return {"self": me, "args": [item], "item": item, "vals": vals, "want": repl, "called": called, "case": case}
+        return {"self": me, "args": [item], "item": item, "vals": vals, "want": repl, "called": called, "case": case, "old_list": item.fields["value"]}
 
     def post(self, I, inp, r):
         c, case = I.ctx, inp["case"]
         changed = any(w in ("one", "list2", "list0") for w in case)
+        ol = inp["old_list"]
+        c.require(len(ol) == len(inp["vals"]) and all(a is b for a, b in zip(ol, inp["vals"])),
+                  "the value list object the item had before is not modified in place (items created by a one-to-many field mapping share it with their siblings)", kind="FRAME")
         c.require(inp["called"] == [v for v in inp["vals"] if v.ghost["what"] != "wrongtype"], "apply_value is asked once per value of an accepted type, in order")
         if changed:
             c.require(r is inp["item"], "the (modified) detection item is returned")
@@ -103,6 +106,74 @@ class StringValueGate(Contract):
 
 
 # ----------------------------------------------------------------------------------------------- value transformations
+@register
+class MapParts(Contract):
+    """SigmaString.map_parts (worker of upper / lower / snake_case and of replace_string with skip_special): the result is a new string OF
+    THE CLASS OF THE ORIGINAL (a case-sensitive string stays case-sensitive), whose parts are, in order: the part itself where the
+    filter rejects it, otherwise what the function returns for it (dropped for None; re-parsed for a str under interpret_special); the
+    original keeps its parts"""
+    id = "C12.SigmaString.map_parts"
+    target = f"{TY}:SigmaString.map_parts"
+    props = ("C12", "C05")
+    cases = tuple((cls, shape, sp) for cls in ("SigmaString", "SigmaCasedString") for shape in ((), ("f",), ("r",), ("n",), ("f", "r"), ("r", "f", "n"), ("f", "f")) for sp in (False, True))
+    assumed = ["part lists of 0..3 parts (unrolled); the mapped function and the filter are abstract: per part accepted / rejected / dropped"]
+
+    def setup(self, E):
+        def ctor(n):
+            def f(I, so, a, k):
+                return SObj("New" + n, {"a": list(a), "s": [("parsed", a[0])] if a else []})
+            return f
+        for n in ("SigmaString", "SigmaCasedString"):
+            E.summaries[f"{TY}:{n}"] = ctor(n)
+
+    def args(self, I, case):
+        cls, shape, sp = case
+        parts = [I.fresh(f"part{i}", "str") for i in range(len(shape))]
+        outs = [I.fresh(f"out{i}", "str") for i in range(len(shape))]
+        kind = {id(p): w for p, w in zip(parts, shape)}
+        out = {id(p): o for p, o in zip(parts, outs)}
+        me = SObj(I.E.index.lookup(f"{TY}:{cls}"), {"s": list(parts)}, lazy=True)
+        func = NativeFn("func", lambda I2, a, k: None if kind[id(a[0])] == "n" else out[id(a[0])])
+        filt = NativeFn("filter_func", lambda I2, a, k: kind[id(a[0])] != "r")
+        return {"self": me, "args": [func, filt, sp], "parts": parts, "outs": outs, "case": case}
+
+    def post(self, I, inp, r):
+        cls, shape, sp = inp["case"]
+        c = I.ctx
+        c.require(isinstance(r, SObj) and r.cls == "New" + cls, "the result has the class of the original (case-sensitive strings stay case-sensitive)")
+        want = []
+        for p, o, w in zip(inp["parts"], inp["outs"], shape):
+            if w == "r":
+                want.append(p)
+            elif w == "f":
+                want.append(("parsed", o) if sp else o)
+        got = r.fields.get("s") if isinstance(r, SObj) else None
+        same = isinstance(got, list) and len(got) == len(want) and all(a is b or (isinstance(a, tuple) and isinstance(b, tuple) and a[0] == b[0] and a[1] is b[1]) for a, b in zip(got, want))
+        c.require(same, "parts: rejected parts kept, accepted ones replaced by the function result (None: dropped), in order")
+        c.require(r is not inp["self"] and len(inp["self"].fields["s"]) == len(inp["parts"]) and all(a is b for a, b in zip(inp["self"].fields["s"], inp["parts"])), "the original string keeps its parts", kind="FRAME")
+
+    def frame_ok(self, I, inp, obj, name):
+        return isinstance(obj, SObj) and isinstance(obj.cls, str) and obj.cls.startswith("New")      # the string created here
+
+    def candidates(self):
+        return ({"text": t, "how": h} for t in ("AbC", "a*B", "\\Pw.EXE") for h in ("upper", "lower", "snake_case", "identity", "drop wildcards"))
+
+    def replay(self, values):
+        if "how" not in values:
+            return None
+        from sigma.types import SigmaString, SigmaCasedString, SpecialChars
+        for cls in (SigmaString, SigmaCasedString):
+            s = cls(values["text"])
+            before = list(s.s)
+            h = values["how"]
+            r = getattr(s, h)() if h in ("upper", "lower", "snake_case") else s.map_parts(lambda p: p) if h == "identity" else s.map_parts(lambda p: None, lambda p: isinstance(p, SpecialChars))
+            if type(r) is not cls:
+                return f"{cls.__name__}({values['text']!r}).{h} gives a {type(r).__name__}"
+            if s.s != before or r is s:
+                return f"{cls.__name__}({values['text']!r}).{h} modified the original (parts {before} -> {s.s})"
+        return None
+
+
 @register
 class MapString(Contract):
     """map_string: a string whose text is a key of the mapping becomes the mapped string (or one string per list entry, in order); any
